@@ -111,11 +111,11 @@ def replay_binary(profile='dev', repo=REPO):
         open(os.path.join(crate, 'Cargo.toml'), 'w').write(toml)
         shutil.copy(os.path.join(repo, 'Cargo.lock'), os.path.join(crate, 'Cargo.lock'))
         env = dict(ENV, CARGO_TARGET_DIR=os.path.join(SCRATCH, 'replay-target'))
-        cmd = ['cargo', 'build', '--offline', '--features', 'text-utils/verif'] + (['--release'] if profile == 'release' else [])
+        cmd = ['cargo', 'build', '--offline', '--features', 'verif'] + (['--release'] if profile == 'release' else [])
         p = subprocess.run(cmd, cwd=crate, env=env, stdout=subprocess.PIPE, stderr=subprocess.STDOUT, text=True)
         if p.returncode != 0 and 'verif' in p.stdout and 'feature' in p.stdout:
             # tree without the hook feature: build without it
-            cmd = [c for c in cmd if c not in ('--features', 'text-utils/verif')]
+            cmd = [c for c in cmd if c not in ('--features', 'verif')]
             p = subprocess.run(cmd, cwd=crate, env=env, stdout=subprocess.PIPE, stderr=subprocess.STDOUT, text=True)
         shutil.rmtree(crate, ignore_errors=True)
         if p.returncode != 0:
